@@ -1917,6 +1917,32 @@ def run(ctx):
                                       error=type(ex).__name__, partial_embedding=True),
                                  f"RecurrencePlot({kw}) raised {type(ex).__name__}: {ex}", replay)
 
+    # round 4: diagline_dist on the asymmetric matrices of a fixed local recurrence rate (plot and
+    # directed network, with / without missing values): the method = model `diaglineDist`
+    # (twice the lines of the lower triangle), every other public method against its derived outcome
+    for c in range(4 * scale):
+        n = rng.randrange(3, 11)
+        metric = rng.choice(METRICS)
+        mv = rng.random() < 0.3
+        ts = gen_series(rng, n, rng.choice([1, 2]), nan_p=0.15 if mv else 0, span=rng.choice([6, 12]))
+        lrr = float(gen_rate(rng))
+        kw = dict(metric=metric, missing_values=mv, local_recurrence_rate=lrr)
+        replay = dict(cls="RecurrencePlot", time_series=ts.tolist(), kwargs=kw)
+        try:
+            with np.errstate(all="ignore"):
+                klass = RecurrenceNetwork if (rng.random() < 0.3 and not mv) else RecurrencePlot
+                o = klass(caller_array(rng, ts), silence_level=3, **kw)
+            Rm = np.asarray(o.recurrence_matrix())
+            ctx.case(("local-rate-diag", metric, mv, lrr, ts.tobytes().hex()), nontrivial(Rm))
+            enumerate_methods(o, "rn" if klass is RecurrenceNetwork else "rp", klass, False, False, False,
+                              dict(replay, cls=klass.__name__), R=Rm,
+                              check_values=klass is RecurrencePlot,
+                              atoms=(False, metric == "supremum", False, mv, False, False))
+        except Exception as ex:  # noqa
+            ctx.fail(dict(kind="construct", cls="RecurrencePlot", spec="l", error=type(ex).__name__,
+                          stream="local-rate-diag"),
+                     f"RecurrencePlot(local_recurrence_rate={lrr}) raised {type(ex).__name__}: {ex}", replay)
+
     # sequential RQA, dedicated stream: supremum metric + fixed threshold, all sizes, embedding,
     # multi-column series, missing values, thresholds with exact ties
     for c in range(15 * scale):
